@@ -14,9 +14,13 @@ from core import Record, bits_equal
 
 def build(c):
     prob = comp_gen.make_problem(c)
+    u = c.get("user_ops")
+    if u == "repair-object" and c["algo"] in ("de", "nsde", "gde3", "gde3mnn", "gde32nn", "gde3p"):
+        # the documented way: a callable handed to the constructor (here an object with state)
+        import userops
+        c = dict(c, repair=userops.StatefulRepair())
     with contextlib.redirect_stdout(io.StringIO()):
         algo = comp_gen.make_algorithm(c, prob)
-    u = c.get("user_ops")
     if u == "mutation" and hasattr(algo.mating, "genetic_mutation"):
         import userops
         algo.mating.genetic_mutation = userops.AnnealedGaussian()
@@ -180,7 +184,7 @@ class Repro:
         for t, c in enumerate(base):
             c = dict(c)
             c["prior"] = False
-            c["user_ops"] = [None, None, "mutation", "repair"][rng.randint(4)] if not c["algo"] in ("ga", "ea-dex") else None
+            c["user_ops"] = [None, None, "mutation", "repair", "repair-object"][rng.randint(5)] if not c["algo"] in ("ga", "ea-dex") else None
             v = VARIANTS[t % len(VARIANTS)]
             c["variant"] = v
             c["vseed"] = int(rng.randint(2**31 - 1))
@@ -317,7 +321,7 @@ class Resume:
         for t, c in enumerate(base):
             c = dict(c)
             c["prior"] = False
-            c["user_ops"] = [None, "mutation", "repair", "crowding"][rng.randint(4)] if c["algo"] not in ("ga", "ea-dex") else None
+            c["user_ops"] = [None, "mutation", "repair", "crowding", "repair-object"][rng.randint(5)] if c["algo"] not in ("ga", "ea-dex") else None
             c["method"] = Resume.METHODS[t % 3]
             c["history"] = bool(rng.randint(3) == 0)
             if t % 30 == 7 and c["algo"] not in ("ga", "ea-dex", "nsder"):
